@@ -10,12 +10,12 @@ var c02Paths = []string{
 	`first(.[$i], .[$j])`, `.[] | select(. != null)`, `if . then .[$i] else .a end?`, `.a // .[$j]?`, `getpath([$i])?`, `getpath(["a","b"])?`, `empty`,
 	`.a[$i]`, `.[$i].a`, `.a[$i:]`, `.[$i:][$k:]`, `.[][$k]?`, `.[]?.a?`, `.a, .b`, `.[$i], .[$j]`, `.[$i:$j], .[$k]`, `.[$k], .[$i:$j]`,
 	`.[$i:$j], .[$i:$j]`, `.[$i:], .[:$j]`, `.[$i], .[$i:$j][$k]`, `.[$i:$j][$k], .[$i]`, `., .[$i]`, `.[$i], .`, `.a, .a.b`, `.a.b, .a`, `.a.b, ., .a.b`,
-	`.[$i][$j], .[$i]`, `.[$i], .[$i][$j]`, `.[0], .[1], .[0]`, `.[$i:$j][], .[$k]`, `.. | select(type == "number")`, `.[] | .[$k]?`,
+	`.[$i], ., .[$k]`, `.[0], ., .[3]`, `., .[$k]`, `.[$i][$j], .[$i]`, `.[$i], .[$i][$j]`, `.[0], .[1], .[0]`, `.[$i:$j][], .[$k]`, `.. | select(type == "number")`, `.[] | .[$k]?`,
 	`recurse(.[$i]?; . != null)`, `limit(2; .[])`, `.[$i, $j]`, `.[$i:$j, $k]?`, `.["a", "b"]?`, `(.a, .b) | .[$i]?`, `.a | ., .b?`,
 }
 
 var c02Bodies = []string{
-	`7`, `.`, `[.]`, `[., .]`, `{a: .}`, `. + 1`, `empty`, `(., .)`, `(8, 9)`, `null`, `{a: .a?, c: .}`, `[.[]?]`, `if type == "array" then .[1:] else [.] end`,
+	`7`, `.`, `[.]`, `empty`, `if type == "array" then .[:1] else 9 end`, `{a: .}`, `[., .]`, `. + 1`, `(., .)`, `(8, 9)`, `null`, `{a: .a?, c: .}`, `[.[]?]`, `if type == "array" then .[1:] else [.] end`,
 	`if . == null then empty else . end`, `length?`, `tojson`, `error`, `.[0]?`, `del(.[0]?)`, `. as $x | [$x, $x]`,
 }
 
